@@ -12,6 +12,10 @@ def tu_check(tu):
         g = radix.append_guard(tu)
         r["findings"] += [f for f in g["findings"] if f["function"] in ("multiunion_m", "bucket_append")]
         r["stats"]["append_sites"] = g["sites"]
+    from ..rules import pins
+    gh, ghf = pins.ghost_reads_in(tu, ["multiunion_m"])
+    r["findings"] = r["findings"] + gh
+    r["stats"]["ghost_functions"] = len(ghf)
     return r
 
 
@@ -42,7 +46,7 @@ def py_multiunion(res):
 
 def run(tier="quick", seed=0, use_cache=True):
     res = engine.Result("C11")
-    res.rules = ["RADIX-SIGN", "HIST-DIM", "UNIQ-COPY", "APPEND-GUARD", "RESULT-LEN", "PY-MULTIUNION"]
+    res.rules = ["RADIX-SIGN", "HIST-DIM", "UNIQ-COPY", "APPEND-GUARD", "RESULT-LEN", "PY-MULTIUNION", "GHOST-READ"]
     res.explanation = (
         "For the 16 integer-key translation units (each with its own resolved "
         "element type): the constant byte ranges in which the final radix "
@@ -64,6 +68,8 @@ def run(tier="quick", seed=0, use_cache=True):
         res.findings.extend(r["findings"], fam)
     res.floor("integer-key translation units with the sorter", len(radix_tus), 16)
     res.floor("translation units", len(out), 22)
+    res.count("GHOST-READ", sum(r["stats"].get("ghost_functions", 0) for r in out.values()))
+    res.floor("functions of multiunion under the pin typestate (II)", out["II"]["stats"].get("ghost_functions", 0), 1)
     res.count("RADIX-SIGN", 2 * len(radix_tus))
     res.count("HIST-DIM", len(radix_tus))
     res.count("UNIQ-COPY", sum(r["stats"]["uniq_returns"] for r in radix_tus.values()))
